@@ -67,9 +67,34 @@ def bind_names(stmt):
 
 
 NAME_SCOPES = ["module", "func", "eval", "exec", "funceval", "comp", "class"]
+# scopes in which the script declares / binds / deletes the name, nested and natively compiled bodies
+NAME_SCOPES2 = {
+    "gdecl": "def pv__f():\n    global {n}\n    return {n}\npv__x = pv__f()",
+    "gassign": "def pv__f():\n    global {n}\n    {n} = pv__sent\n    return {n}\npv__x = pv__f()",
+    "gdel": "def pv__f():\n    global {n}\n    {n} = pv__sent\n    del {n}\n    return {n}\npv__x = pv__f()",
+    "gdecl_nested": "def pv__o():\n    global {n}\n    def pv__i():\n        return {n}\n    return pv__i()\npv__x = pv__o()",
+    "nlassign": "def pv__o():\n    {n} = pv__sent\n    def pv__i():\n        nonlocal {n}\n        return {n}\n    return pv__i()\npv__x = pv__o()",
+    "nldel": "def pv__o():\n    {n} = pv__sent\n    del {n}\n    def pv__i():\n        nonlocal {n}\n        return {n}\n    return pv__i()\npv__x = pv__o()",
+    "nlnever": "def pv__o():\n    def pv__i():\n        nonlocal {n}\n        return {n}\n    return pv__i()\npv__x = pv__o()",
+    "closure": "def pv__o():\n    {n} = pv__sent\n    def pv__i():\n        return {n}\n    return pv__i()\npv__x = pv__o()",
+    "closuredel": "def pv__o():\n    {n} = pv__sent\n    del {n}\n    def pv__i():\n        return {n}\n    return pv__i()\npv__x = pv__o()",
+    "localdel": "def pv__f():\n    {n} = pv__sent\n    del {n}\n    return {n}\npv__x = pv__f()",
+    "nested": "def pv__o():\n    def pv__i():\n        return {n}\n    return pv__i()\npv__x = pv__o()",
+    "method": "class pv__C:\n    def m(self):\n        return {n}\npv__x = pv__C().m()",
+    "funccomp": "def pv__f():\n    return [{n} for pv__i in [0]][0]\npv__x = pv__f()",
+    "funcclass": "def pv__f():\n    class pv__C:\n        pv__v = {n}\n    return pv__C.pv__v\npv__x = pv__f()",
+    "dictcomp": "pv__x = list({{0: {n} for pv__i in [0]}}.values())[0]",
+    "lambda": "pv__x = (lambda: {n})()",
+    "lambdafunc": "def pv__f():\n    return (lambda: {n})()\npv__x = pv__f()",
+    "compiled": "@pyscript_compile\ndef pv__f():\n    return {n}\npv__x = pv__f()",
+    "after_lambda": "pv__l = lambda: 1\npv__x = {n}",
+    "after_lambda_func": "pv__l = lambda: 1\ndef pv__f():\n    return {n}\npv__x = pv__f()",
+}
 
 
 def name_program(scope, name):
+    if scope in NAME_SCOPES2:
+        return NAME_SCOPES2[scope].format(n=name)
     if scope == "module":
         return f"pv__x = {name}"
     if scope == "func":
@@ -361,6 +386,8 @@ async def op_names(req):
                 name = case["name"]
                 a, _gc = new_interp("pvn")
                 sent = Sent()
+                bound = Sent()
+                a.global_sym_table["pv__sent"] = bound   # the value the probe programs assign to the name themselves
                 if case["shadow"]:
                     a.global_sym_table[name] = sent
                 exc = None
@@ -376,8 +403,10 @@ async def op_names(req):
                     kind = "KOther"
                 else:
                     v = a.global_sym_table["pv__x"]
-                    if v is sent:
+                    if v is sent or v is bound:
                         kind = "KUser"
+                    elif v is builtins.__dict__ or v is builtins:
+                        kind = "KBuiltinsNs"
                     elif hasattr(builtins, name) and v is getattr(builtins, name):
                         kind = "KBuiltin"
                     elif isinstance(getattr(v, "__self__", None), logging.Logger):
